@@ -39,7 +39,7 @@ func init() {
 			{Name: "eval-reads-global-after-unlock", Rule: "EVALER-LOCK", File: "pkg/eval/eval.go", Old: "\t} else {\n\t\tev.mu.Unlock()\n\t}\n\n\top, _, err := compile(b.static(), cfg.Global.static(), nil, tree, errFile)", New: "\t} else {\n\t\tev.mu.Unlock()\n\t}\n\t_ = ev.global\n\n\top, _, err := compile(b.static(), cfg.Global.static(), nil, tree, errFile)", Fire: true, Want: "Eval", Patterns: []string{"./pkg/eval"}},
 			{Name: "eval-error-path-keeps-lock", Rule: "EVALER-LOCK", File: "pkg/eval/eval.go", Old: "\tif err != nil {\n\t\tif defaultGlobal {\n\t\t\tev.mu.Unlock()\n\t\t}\n\t\treturn err\n\t}", New: "\tif err != nil {\n\t\treturn err\n\t}", Fire: true, Want: "returns holding", Patterns: []string{"./pkg/eval"}},
 			{Name: "write-under-read-lock", Rule: "EVALER-LOCK", File: "pkg/eval/eval.go", Old: "func (ev *Evaler) addNumBgJobs(delta int) {\n\tev.mu.Lock()\n\tdefer ev.mu.Unlock()", New: "func (ev *Evaler) addNumBgJobs(delta int) {\n\tev.mu.RLock()\n\tdefer ev.mu.RUnlock()", Fire: true, Want: "addNumBgJobs", Patterns: []string{"./pkg/eval"}},
-			{Name: "ptrvar-set-under-read-lock", Rule: "PTRVAR-LOCK", File: "pkg/eval/vars/ptr.go", Old: "\tv.mutex.Lock()\n\tdefer v.mutex.Unlock()\n\treturn vals.ScanToGo(val, v.ptr)", New: "\tv.mutex.RLock()\n\tdefer v.mutex.RUnlock()\n\treturn vals.ScanToGo(val, v.ptr)", Fire: true, Patterns: []string{"./pkg/eval"}},
+			{Name: "ptrvar-set-under-read-lock", Rule: "PTRVAR-LOCK", File: "pkg/eval/vars/ptr.go", Old: "\tv.mutex.Lock()\n\tdefer v.mutex.Unlock()\n\tif val == nil {", New: "\tv.mutex.RLock()\n\tdefer v.mutex.RUnlock()\n\tif val == nil {", Fire: true, Patterns: []string{"./pkg/eval"}},
 			{Name: "envlist-get-writes-cache-under-rlock", Rule: "RLOCK-WRITE", File: "pkg/eval/vars/env_list.go", Old: "\tenvli.Lock()\n\tdefer envli.Unlock()\n\n\tvalue := os.Getenv", New: "\tenvli.RLock()\n\tdefer envli.RUnlock()\n\n\tvalue := os.Getenv", Fire: true, Patterns: []string{"./pkg/eval"}},
 			{Name: "benign-rlock-for-pure-read", Rule: "EVALER-LOCK", File: "pkg/eval/eval.go", Old: "func (ev *Evaler) registerDeprecation(d deprecation) bool {\n\tev.mu.Lock()\n\tdefer ev.mu.Unlock()", New: "func (ev *Evaler) registerDeprecation(d deprecation) bool {\n\tev.mu.Lock()\n\tdefer func() { ev.mu.Unlock() }()", Fire: false, Patterns: []string{"./pkg/eval"}},
 			{Name: "benign-explicit-unlock-instead-of-defer", Rule: "EVALER-LOCK", File: "pkg/eval/eval.go", Old: "func (ev *Evaler) getNumBgJobs() int {\n\tev.mu.RLock()\n\tdefer ev.mu.RUnlock()\n\treturn ev.numBgJobs\n}", New: "func (ev *Evaler) getNumBgJobs() int {\n\tev.mu.RLock()\n\tn := ev.numBgJobs\n\tev.mu.RUnlock()\n\treturn n\n}", Fire: false, Patterns: []string{"./pkg/eval"}},
